@@ -56,6 +56,9 @@ m("C01-to-ir-add-as-multiply", "C01", "iteration_graph/identifiable_expression/_
 m("C01-output-layer-wrong", "C01", "desugar/_to_iteration_graphs.py",
   "tuple(assignment.target.indexes[i] for i in output_format.ordering),\n                output_format.modes,",
   "tuple(assignment.target.indexes),\n                output_format.modes,", "C01.")
+m("C01-arm-drops-operand", "C01", "iteration_graph/_generate_ir.py",
+  "                block.append(to_ir_iteration_graph(subsubnode.next, next_output, kernel_type))",
+  "                block.append(\n                    to_ir_iteration_graph(\n                        (subsubnodes[1] if len(subsubnodes) > 2 and subsubnode is subsubnodes[0] else subsubnode).next,\n                        next_output,\n                        kernel_type,\n                    )\n                )", "C01.K-complete")
 # ---------------------------------------------------------------- C02
 m("C02-no-pos0", "C02", "iteration_graph/outputs/_append.py",
   "                    source.append(pos_array.idx(0).assign(0))\n", "", "C02.pos-init")
